@@ -97,6 +97,11 @@ CONSTRUCTS = [
     "class {N}:\n    class bar: pass\n    @foo.setter\n    def bar(self): ...\n    @deprecated(Version('p', 1, 0, 0))\n    def baz(self): ...\n",
     "from zope.interface import implementer, Interface\nclass I{N}(Interface):\n    def m(): 'doc'\ndef some_function(): pass\n@implementer(some_function, I{N})\nclass {N}:\n    def m(self): pass\n",
     "{n} = re.compile('a{{99999999999999}}')\n{n}2 = re.compile('b{{1,99999999999999999999}}')\n",
+    "__all__ = [{{[]: 1}}, '{n}']\n",
+    "__docformat__ = {{[]: 1}}\n",
+    "def {n}(): pass\n{n}.__doc__ = {{[]: 1}}\n",
+    "import attr\n@attr.s(auto_attribs={{[]: 1}})\nclass {N}:\n    x: int = 1\n",
+    "{n} = {{{{1}}: 2}}\n{n}2 = {{[1, 2]}}\n{n}3: Literal[{{[]: 1}}] = None\n",
     "{n} = " + "+".join(["1"] * 6000) + "\n",
     "{n} = " + "(" * 300 + "1" + ")" * 300 + "\n",
     "{n} = " + "[" * 120 + "]" * 120 + "\n",
@@ -247,6 +252,11 @@ def make_tree(rng: random.Random) -> Dict[str, Any]:
     prepend = root == "pkg" and rng.random() < 0.12
     if prepend:
         files["pkg/pp.py"] = "from fake.pack import pkg\nfrom fake.pack.pkg import good as g2\nimport fake\nfrom fake import pack as pk\n"
+    if root == "pkg" and rng.random() < 0.06:
+        # a sub-package that re-exports one of its own ancestors (used to end in a RecursionError)
+        files["pkg/anc/__init__.py"] = "x = 1\n"
+        files["pkg/anc/deep/__init__.py"] = rng.choice(["from pkg import anc\n__all__ = ['anc']\n", "import pkg\nfrom pkg import anc as up\n__all__ = ['up']\n",
+                                                           "from pkg.anc import deep\n__all__ = ['deep']\n"])
     extra_roots: List[str] = []
     if root == "pkg" and not prepend and rng.random() < 0.08:
         # a second root: a top-level module that the package re-exports (used to abort the run)
